@@ -470,3 +470,16 @@ Theorem C01_util_strn_trimn_regions : forall buf,
   (exists r k, Util.trimn buf = Ok r /\ buf = r ++ repeat 0 k).
 Proof. exact UtilProofs.strn_trimn_regions. Qed.
 Print Assumptions C01_util_strn_trimn_regions.
+
+(* ---- leaf functions regenerated from the source on every run (tools/gen_leaf.py -> gen/Leaf.v): agreement with the hand-written model ---- *)
+(* the same agreement, for the alignment tests of the safety property (the models' aligned_to on addresses is the usize instance) *)
+From PV.gen Require Leaf.
+From PV.Proofs Require LeafAlign.
+Theorem C01_leaf_aligned_to_usize : forall x a, Leaf.L_align_usize_aligned_to_dom x a = true -> Leaf.L_align_usize_aligned_to_ok x a = true ->
+  Leaf.L_align_usize_aligned_to x a = Machine.aligned_to a x.
+Proof. exact LeafAlign.align_usize_aligned_to_agrees. Qed.
+Print Assumptions C01_leaf_aligned_to_usize.
+Theorem C01_leaf_align_to_usize : forall x a, Leaf.L_align_usize_align_to_dom x a = true -> Leaf.L_align_usize_align_to_ok x a = true ->
+  Leaf.L_align_usize_align_to x a = Machine.align_to W64 a x.
+Proof. exact LeafAlign.align_usize_align_to_agrees. Qed.
+Print Assumptions C01_leaf_align_to_usize.
